@@ -41,11 +41,21 @@ class Layout:
     MODELS = ('scattered', 'compact', 'compact-desc', 'recycled')
 
     def __init__(self, model, seed):
+        self.recorded = None
+        if model == 'recorded':
+            # replay of addresses observed in a native run (seed is the list);
+            # once exhausted, continue compactly above the highest one
+            self.recorded = list(seed)
+            self.rpos = 0
+            model = 'compact'
+            seed = len(self.recorded)
         assert model in self.MODELS
         self.model = model
         self.rng = random.Random(seed)
         self.used = set()
         self.cur = USER_BASE + 16 * self.rng.randrange(1 << 24)
+        if self.recorded:
+            self.cur = max(self.recorded) + 4096
         self.pool = []
 
     def _fresh(self, a):
@@ -56,6 +66,13 @@ class Layout:
 
     def next(self):
         r = self.rng
+        if self.recorded is not None and self.rpos < len(self.recorded):
+            # recorded addresses are taken as they are: a real allocator
+            # reuses the address of a dead object
+            a = self.recorded[self.rpos]
+            self.rpos += 1
+            self.used.add(a)
+            return a
         if self.model == 'scattered':
             return self._fresh(USER_BASE + 16 * r.randrange(1 << 28))
         if self.model in ('compact', 'compact-desc'):
@@ -73,8 +90,7 @@ class Layout:
         # recycled: blocks of a few pools handed out in free-list (shuffled) order
         if not self.pool:
             base = USER_BASE + 4096 * r.randrange(1 << 20)
-            blocks = [base + 48 * 16 // 16 * i for i in range(0, 4096 // 48)]
-            blocks = [b - (b % 16) for b in blocks]
+            blocks = [base + 48 * i for i in range(0, 4096 // 48)]
             r.shuffle(blocks)
             self.pool = blocks
         return self._fresh(self.pool.pop())
@@ -97,6 +113,7 @@ class AddressSeam:
         self.installed = []
         self.notes = []
         self.assigned = 0
+        self.log = None   # when a list: addresses in registration order
 
     def set_layout(self, model, seed):
         self.layout = Layout(model, seed)
@@ -108,6 +125,8 @@ class AddressSeam:
             return ent[0]
         addr = self.layout.next() if self.layout is not None else k
         self.assigned += 1
+        if self.log is not None:
+            self.log.append(addr)
         table = self.table
 
         def _gone(_ref, k=k):
